@@ -252,6 +252,23 @@ def r4_cursor(ctx):
                   "send_typed/sends-serialised-bytes", site_of(st, bb), "")
     reader = [a for a in F.adts if a.endswith("client_event::ClientEventReader")]
     ctx.check(bool(reader), "ClientEventReader/exists", "", "cursor resource type not found")
+    # the send cursor only moves forward: nobody overwrites it (a restored checkpoint makes already-sent events unread again)
+    rewinds = []
+    for b in F.real_fns():
+        if "::tests::" in b.path or not b.path.startswith(("bevy_replicon::shared::event", "bevy_replicon::client::event", "<bevy_replicon::shared::event")):
+            continue
+        for bb, i, st_ in b.statements():
+            if st_["s"] == "assign" and st_["place"]["p"] and st_["place"]["p"][0] == "deref" and len(st_["place"]["p"]) <= 2:
+                ty = b.locals[st_["place"]["l"]]["ty"]
+                if ("EventCursor<" in ty or "ClientEventReader<" in ty) and all(e == "deref" for e in st_["place"]["p"]):
+                    rewinds.append((b, bb, "assignment"))
+        for bb, t in b.calls():
+            d = callee_decl(t)
+            if d.rsplit("::", 1)[-1] in ("replace", "swap", "take", "clone_from") and any("EventCursor" in a_ or "ClientEventReader" in a_ for a_ in t["callee"].get("args", [])):
+                rewinds.append((b, bb, d.rsplit("::", 1)[-1]))
+    ctx.check(not rewinds, "ClientEventReader/never-rewound", site_of(rewinds[0][0], rewinds[0][1]) if rewinds else site_of(st),
+              "the client's send cursor is overwritten (%s): events that were already sent become unread again and are sent a second time - or re-emitted locally after a disconnect" % (
+                  [(short(b.path), how) for (b, _, how) in rewinds]))
     # the server's consumer of FromClient events for triggers drains (exactly once)
     tt = ctx.fn("client_trigger::ClientTrigger::trigger_typed")
     ctx.check(any(callee_decl(t).endswith("Events::<E>::drain") for _, t in tt.calls()), "trigger_typed/drains", site_of(tt), "client trigger events are not drained when triggered (they would trigger again next frame)")
